@@ -4,6 +4,7 @@ import (
 	"fmt"
 	"go/ast"
 	"go/parser"
+	"go/types"
 	"regexp"
 	"strconv"
 	"strings"
@@ -41,6 +42,8 @@ type FuncContract struct {
 	used        bool
 	opts        map[string]string
 	asserts     []midAssert
+	implOf      *types.Signature // interface method signature (implementation units)
+	implIface   types.Type
 }
 
 type midAssert struct {
@@ -51,6 +54,13 @@ type midAssert struct {
 func (c *FuncContract) assignsNothing() bool { return c != nil && c.assignsNone }
 
 // GhostFunc is an uninterpreted (or defined) specification function.
+type typeInv struct {
+	rep  bool // representation clause: a definition (assumed when a value is boxed); otherwise proved when boxed
+	cl   clause
+	pkg  string
+	name string
+}
+
 type GhostFunc struct {
 	name   string
 	params []ghostParam
@@ -71,17 +81,19 @@ type Lemma struct {
 }
 
 type ContractSet struct {
-	funcs  map[string]*FuncContract // pkgpath + "::" + key [+ "@" + anchor]
-	types  map[string]*FuncContract // pkgpath::TypeName
-	ifaces map[string]*FuncContract // pkgpath::Iface.Method
-	ghosts map[string]*GhostFunc    // name (global namespace)
-	lemmas []*Lemma
-	order  []*FuncContract
-	errors []string
+	funcs    map[string]*FuncContract // pkgpath + "::" + key [+ "@" + anchor]
+	types    map[string]*FuncContract // pkgpath::TypeName
+	ifaces   map[string]*FuncContract // pkgpath::Iface.Method
+	ghosts   map[string]*GhostFunc    // name (global namespace)
+	lemmas   []*Lemma
+	axioms   []*Lemma
+	typeInvs map[string][]typeInv // pkgpath::TypeName -> invariants / representation clauses
+	order    []*FuncContract
+	errors   []string
 }
 
 func newContractSet() *ContractSet {
-	return &ContractSet{funcs: map[string]*FuncContract{}, types: map[string]*FuncContract{}, ifaces: map[string]*FuncContract{}, ghosts: map[string]*GhostFunc{}}
+	return &ContractSet{funcs: map[string]*FuncContract{}, types: map[string]*FuncContract{}, ifaces: map[string]*FuncContract{}, ghosts: map[string]*GhostFunc{}, typeInvs: map[string][]typeInv{}}
 }
 
 var reFuncHead = regexp.MustCompile(`^func\s+(?:\(\s*\w*\s*\*?\s*([\w]+)(?:\[[^\]]*\])?\s*\)\s*)?(\w+)\s*(.*)$`)
@@ -158,6 +170,38 @@ func (cs *ContractSet) parseFile(pkgPath, filename string, lines []string, lineN
 			}
 			g.pkg = pkgPath
 			cs.ghosts[g.name] = g
+			cur, curLemma = nil, nil
+		case "axiom":
+			j := strings.Index(rest, ":")
+			if j < 0 {
+				cs.errors = append(cs.errors, where+": axiom needs `name: expr`")
+				continue
+			}
+			lm := &Lemma{name: strings.TrimSpace(rest[:j]), pkg: pkgPath, text: strings.TrimSpace(rest[j+1:]), opts: map[string]string{}}
+			ex, err := parseSpecExpr(lm.text)
+			if err != nil {
+				cs.errors = append(cs.errors, where+": "+err.Error())
+				continue
+			}
+			lm.expr = ex
+			cs.axioms = append(cs.axioms, lm)
+			cur, curLemma = nil, nil
+		case "type-invariant", "representation":
+			// type-invariant T: E      (self = the value of type T)
+			j := strings.Index(rest, ":")
+			if j < 0 {
+				cs.errors = append(cs.errors, where+": expected `"+word+" T: expr`")
+				continue
+			}
+			tn := strings.TrimSpace(rest[:j])
+			txt := strings.TrimSpace(rest[j+1:])
+			ex, err := parseSpecExpr(txt)
+			if err != nil {
+				cs.errors = append(cs.errors, where+": "+err.Error())
+				continue
+			}
+			key := pkgPath + "::" + tn
+			cs.typeInvs[key] = append(cs.typeInvs[key], typeInv{rep: word == "representation", pkg: pkgPath, name: tn, cl: clause{kind: word, text: txt, expr: ex, line: where}})
 			cur, curLemma = nil, nil
 		case "lemma":
 			// lemma name: expr
@@ -383,9 +427,11 @@ func parseGhost(word, rest string) (*GhostFunc, error) {
 	}
 	tail := strings.TrimSpace(rest[j+1:])
 	if word == "predicate" {
-		if !strings.HasPrefix(tail, "=") {
+		k := strings.Index(tail, "=")
+		if k < 0 {
 			return nil, fmt.Errorf("predicate %s: expected `= expr`", g.name)
 		}
+		tail = tail[k:]
 		ex, err := parseSpecExpr(strings.TrimSpace(tail[1:]))
 		if err != nil {
 			return nil, err
